@@ -19,7 +19,51 @@ let bytes_of_hex s : n list =
       r := byte_tab.(hexval s.[2*i] * 16 + hexval s.[2*i+1]) :: !r
     done; !r end
 
+(* arbitrary-size decimal literal -> N (lengths may exceed OCaml's int) *)
+let n_of_string (s : string) : n =
+  let ten = n_of_int 10 in
+  let acc = ref N0 in
+  String.iter (fun c -> acc := N.add (N.mul !acc ten) (n_of_int (Char.code c - 48))) s; !acc
+
 let split_on c s = if s = "" then [] else String.split_on_char c s
+
+let str_of_bytes (l : n list) = String.concat "" (List.map (fun b -> String.make 1 (Char.chr (int_of_n b))) l)
+let hex_of_bytes (l : n list) = if l = [] then "-" else String.concat "" (List.map (fun b -> Printf.sprintf "%02x" (int_of_n b)) l)
+let disp h = str_of_bytes (hex h)
+
+let parse_nodes s =
+  if s = "-" || s = "" then [] else
+    List.map (fun e -> match String.split_on_char ':' e with
+        | [h; l] -> (bytes_of_hex h, n_of_string l)
+        | _ -> failwith "bad node") (String.split_on_char ',' s)
+
+let run_c06 toks =
+  match toks with
+  | ["dh"; d] -> disp (compute_data_hash (bytes_of_hex d))
+  | ["ih"; d] -> disp (compute_internal_node_hash (bytes_of_hex d))
+  | ["hmac"; h; k] -> disp (hmac (bytes_of_hex h) (bytes_of_hex k))
+  | ["range"; l] -> disp (range_hash_from_chunks (List.map bytes_of_hex (List.filter (fun x -> x <> "" && x <> "-") (String.split_on_char ',' l))))
+  | ["cas"; l] ->
+    let ns = parse_nodes l in
+    (match cas_node_hash compute_internal_node_hash ns, validator_root compute_internal_node_hash ns with
+     | Some a, Some v -> "cas=" ^ disp a ^ " val=" ^ disp v
+     | _ -> "OUT-OF-FUEL")
+  | ["file"; salt; l] ->
+    (match file_node_hash (parse_nodes l) (bytes_of_hex salt) with Some h -> disp h | None -> "OUT-OF-FUEL")
+  | ["casneq"; a; b] ->
+    (match cas_node_hash compute_internal_node_hash (parse_nodes a), cas_node_hash compute_internal_node_hash (parse_nodes b) with
+     | Some x, Some y -> if x = y then "eq" else "neq"
+     | _ -> "OUT-OF-FUEL")
+  | ["hexof"; h] -> let h = bytes_of_hex h in "hex=" ^ disp h ^ " b64=" ^ str_of_bytes (base64 h)
+  | ["fromhex"; s] -> (match from_hex (bytes_of_hex s) with Some h -> "ok " ^ hex_of_bytes h | None -> "err")
+  | ["fromb64"; s] -> (match from_base64 (bytes_of_hex s) with Some h -> "ok " ^ hex_of_bytes h | None -> "err")
+  | ["hw"; calls] ->
+    let calls = List.map (fun c -> match String.split_on_char ':' c with
+        | [b; a] -> (bytes_of_hex b, if a = "e" then None else Some (n_of_int (int_of_string a)))
+        | _ -> failwith "bad hw call") (String.split_on_char ';' calls) in
+    let (hashed, _) = hashed_write hashed_write_hashes_whole_buffer calls [] [] in
+    disp (compute_data_hash hashed)
+  | _ -> failwith "bad c06 case"
 
 let run_c04 toks =
   match toks with
@@ -46,9 +90,11 @@ let () =
        if line <> "" && line.[0] <> '#' then begin
          match String.split_on_char ' ' line with
          | id :: toks ->
-           let obs = match stream with
+           let obs = try (match stream with
              | "c04" -> run_c04 toks
-             | _ -> failwith "unknown stream" in
+             | "c06" -> run_c06 toks
+             | _ -> failwith "unknown stream")
+             with Stack_overflow -> "MODEL-EXCEPTION stack-overflow" | e -> "MODEL-EXCEPTION " ^ Printexc.to_string e in
            Printf.printf "obs %s %s\n" id obs
          | [] -> ()
        end
